@@ -172,6 +172,7 @@ def globals_fp():
 
 
 def chunks(tier, seed):
+    _zygote_start()  # in the main process, before the worker pool is forked and before anything is rendered
     keys = corpus_keys(tier)
     out = []
     B = 40
@@ -229,6 +230,7 @@ def sched_corpus(tier):
 def expand(chunk):
     global _DYN_SCHED
     _DYN_SCHED = 0
+    _SEEN_WRITERS.clear()  # caps are per work unit, so that what is explored does not depend on the worker a unit lands on
     if chunk["kind"] == "hist":
         for k in chunk["keys"]:
             yield {"kind": "hist", "key": k}
@@ -347,7 +349,7 @@ def run_hist(case, res):
         res.extra.setdefault("render_functions_with_stores", set()).update(writers)
         wkey = (key[0].split(":")[0], tuple(sorted(writers)))
         _SEEN_WRITERS[wkey] = _SEEN_WRITERS.get(wkey, 0) + 1
-        if _SEEN_WRITERS[wkey] <= 2:  # per worker process: two objects per distinct set of storing render functions
+        if _SEEN_WRITERS[wkey] <= 1:  # per work unit: one object per distinct set of storing render functions
             wrote_object = True
     wrote_global = globals_fp() != g0
     if wrote_global:
@@ -649,51 +651,114 @@ def _cross_render(keys, order):
     return out, live
 
 
+# A pristine process for every cross-object run: a zygote is forked from the main process before anything was rendered
+# (chunks() runs there, before the worker pool exists) and forks one child per request.  Whatever earlier work units left
+# behind in a worker - live objects, warm caches - cannot mask or fake an interference between the objects of the batch,
+# and the verdict does not depend on how work units are distributed over workers.
+_ZY_NAME = None
+
+
+def _zy_handle(conn):
+    import pickle
+    import struct
+
+    try:
+        f = conn.makefile("rwb")
+        n = struct.unpack("<I", f.read(4))[0]
+        req = pickle.loads(f.read(n))
+        out, live = _cross_render(req["keys"], req["order"])
+        data = pickle.dumps({"out": out, "types": {ks: _tname(o) for ks, o in live}})
+    except BaseException as e:  # noqa
+        data = pickle.dumps({"error": "%s: %s" % (type(e).__name__, e)})
+    f.write(struct.pack("<I", len(data)) + data)
+    f.flush()
+
+
+def _zygote_start():
+    global _ZY_NAME
+    import signal
+    import socket
+
+    if _ZY_NAME is not None:
+        return
+    name = "\0c02zy_%d" % os.getpid()
+    srv = socket.socket(socket.AF_UNIX, socket.SOCK_STREAM)
+    srv.bind(name)
+    srv.listen(128)
+    ppid = os.getpid()
+    pid = os.fork()
+    if pid == 0:
+        try:
+            signal.signal(signal.SIGCHLD, signal.SIG_IGN)
+            srv.settimeout(1.0)
+            while os.getppid() == ppid:
+                try:
+                    conn, _ = srv.accept()
+                except socket.timeout:
+                    continue
+                except OSError:
+                    break
+                if os.fork() == 0:
+                    srv.close()
+                    conn.settimeout(None)
+                    _zy_handle(conn)
+                    os._exit(0)
+                conn.close()
+        finally:
+            os._exit(0)
+    srv.close()
+    _ZY_NAME = name
+
+
+def _zy_request(keys, order):
+    import pickle
+    import socket
+    import struct
+
+    c = socket.socket(socket.AF_UNIX, socket.SOCK_STREAM)
+    c.connect(_ZY_NAME)
+    data = pickle.dumps({"keys": keys, "order": order})
+    c.sendall(struct.pack("<I", len(data)) + data)
+    return c
+
+
+def _zy_reply(c):
+    import pickle
+    import struct
+
+    f = c.makefile("rb")
+    n = struct.unpack("<I", f.read(4))[0]
+    rep = pickle.loads(f.read(n))
+    c.close()
+    if "error" in rep:
+        raise RuntimeError("cross-object child failed: " + rep["error"])
+    return rep
+
+
 def run_cross(case, res):
     """Renders of *different* objects must not influence each other: a batch of corpus objects (a seed and its
     successors: equal-looking statements that differ in one clause) is built, kept alive and rendered in forward order
-    in one process and in reverse order in another (forked before anything of the batch exists).  Any cache or scratch
-    state outside the rendered object that is keyed by something coarser than the object (an `__eq__`/`__hash__` that
-    ignores clauses, a rendered string, ...) makes the two orders disagree."""
-    import gc
-    import pickle
-
+    in one pristine process and in reverse order in another.  Any cache or scratch state outside the rendered object
+    that is keyed by something coarser than the object (an `__eq__`/`__hash__` that ignores clauses, a rendered string,
+    ...) makes the two orders disagree."""
+    _zygote_start()  # no-op when chunks() already started it in the main process
     keys = case["keys"]
-    rfd, wfd = os.pipe()
-    pid = os.fork()
-    if pid == 0:
-        code = 0
-        try:
-            os.close(rfd)
-            out, live = _cross_render(keys, "reverse")
-            with os.fdopen(wfd, "wb") as f:
-                pickle.dump({k: [h64(x) for x in v] for k, v in out.items()}, f)
-        except BaseException:
-            code = 3
-        os._exit(code)
-    os.close(wfd)
-    with os.fdopen(rfd, "rb") as f:
-        data = f.read()
-    _, status = os.waitpid(pid, 0)
-    if status != 0 or not data:
-        raise RuntimeError("cross-object child failed (status %r)" % status)
-    rev = pickle.loads(data)
-    fwd, live = _cross_render(keys, "forward")
-    res.nontrivial = 1 if len(live) > 1 else 0
-    for ks, o in live:
-        res.transitions += 2 * len(_CROSS_OPS)
-        a = [h64(x) for x in fwd[ks]]
-        b = rev.get(ks)
+    c1, c2 = _zy_request(keys, "forward"), _zy_request(keys, "reverse")
+    fwd, rev = _zy_reply(c1), _zy_reply(c2)
+    res.nontrivial = 1 if len(fwd["out"]) > 1 else 0
+    ops = [r for r in RNAMES if r.startswith(("i:", "p:")) or r in ("str", "gps")]
+    for ks, a in fwd["out"].items():
+        res.transitions += 2 * len(ops)
+        b = rev["out"].get(ks)
         if a != b:
             i = next((i for i in range(len(a)) if b is None or a[i] != b[i]), 0)
-            res.violate("C02|%s|%s|cross-object" % (_tname(o), opclass(_CROSS_OPS[i])),
+            res.violate("C02|%s|%s|cross-object" % (fwd["types"][ks], opclass(ops[i])),
                         "the render of an object depends on which other live objects were rendered before it "
-                        "(forward vs reverse order over a batch of corpus objects)", key=json.loads(ks), op=_CROSS_OPS[i],
-                        forward=fwd[ks][i], batch=[json.loads(k) for k, _ in live][:12])
-    res.states.append(h64(repr(sorted(fwd))))
-    res.outcomes.extend(h64(repr(v)) for v in fwd.values())
-    del live
-    gc.collect()
+                        "(forward vs reverse order over a batch of corpus objects, each order in a pristine process)",
+                        key=json.loads(ks), op=ops[i], forward=a[i], reverse=None if b is None else b[i],
+                        batch=[json.loads(k) for k in fwd["out"]][:12])
+    res.states.append(h64(repr(sorted(fwd["out"]))))
+    res.outcomes.extend(h64(repr(v)) for v in fwd["out"].values())
 
 
 def run_case(case):
